@@ -485,7 +485,6 @@ struct Run {
     pub outstanding: Vec<u32>,    // the harness' own view (for generating targets)
     pub finished: Vec<u32>,
     pub last_events: Vec<String>,
-    rtt_fact: String,
 }
 
 fn build_client(c: &Cfg) -> StunClient {
@@ -527,7 +526,6 @@ impl Run {
             outstanding: vec![],
             finished: vec![],
             last_events: vec![],
-            rtt_fact: String::new(),
         }
     }
     fn header(&self) -> String {
@@ -597,11 +595,11 @@ impl Run {
         let rto = s.rtt.map(|(r, _, _)| r.as_nanos() as u64);
         // the estimator state and the instant of the last request: not predicted by the model, but part of "nothing
         // changed" (C17, C12): reported as a fact and compared between consecutive operations by the monitors
-        self.rtt_fact = match s.rtt {
-            Some((r, sr, rv)) => format!("rtt={}.{}.{}.{}", r.as_nanos(), sr.as_nanos(), rv.as_nanos(), s.last_request.map(|d| d.as_nanos().to_string()).unwrap_or("-".into())),
-            None => "rtt=-".to_string(),
+        let rs = match s.rtt {
+            Some((r, sr, rv)) => format!("R={}.{}.{}.{}", r.as_nanos(), sr.as_nanos(), rv.as_nanos(), s.last_request.map(|d| d.as_nanos().to_string()).unwrap_or("-".into())),
+            None => "R=-".to_string(),
         };
-        (format!("T={};H={};K={};M={}", ts, hs, k, m), rto)
+        (format!("T={};H={};K={};M={};{}", ts, hs, k, m, rs), rto)
     }
 
     /// drain and render the events of the last call; returns (compared part, extra facts)
@@ -704,7 +702,7 @@ impl Run {
                 let rr = if self.cfg.reliable { self.cfg.rto } else { rto.unwrap_or(0) };
                 out.rec(&format!("O S {} {} {} {} {} {}", now, idn, rr, method, *room as u8, toks(attrs)));
                 out.imp(&format!("{};{};{}", ret, ev, snap));
-                out.rec(&format!("J {} {}", extra, self.rtt_fact));
+                out.rec(&format!("J {}", extra));
             }
             Op::Ind { method, room, attrs } => {
                 let buf = vec![0u8; if *room { 4096 } else { 19 }];
@@ -723,7 +721,7 @@ impl Run {
                 let (snap, _) = self.snapshot();
                 out.rec(&format!("O N {} {} {} {}", idn, method, *room as u8, toks(attrs)));
                 out.imp(&format!("{};{};{}", ret, ev, snap));
-                out.rec(&format!("J {} {}", extra, self.rtt_fact));
+                out.rec(&format!("J {}", extra));
             }
             Op::Recv { now, decodable, class, method, id, attrs } => {
                 let txid = self.txid_of(*id);
@@ -744,7 +742,7 @@ impl Run {
                 let (ev, extra) = self.events(*now);
                 let (snap, _) = self.snapshot();
                 out.imp(&format!("{};{};{}", ret, ev, snap));
-                out.rec(&format!("J {} {}", extra, self.rtt_fact));
+                out.rec(&format!("J {}", extra));
             }
             Op::Tmo { now } => {
                 out.rec(&format!("O T {}", now));
@@ -755,7 +753,7 @@ impl Run {
                 let (ev, extra) = self.events(*now);
                 let (snap, _) = self.snapshot();
                 out.imp(&format!("{};{};{}", ret, ev, snap));
-                out.rec(&format!("J {} {}", extra, self.rtt_fact));
+                out.rec(&format!("J {}", extra));
             }
         }
         // keep the generator's view of outstanding / finished ids (from the implementation's own events)
